@@ -73,7 +73,63 @@ def do_run(rid):
     return 0
 
 
+def do_prun_one(rid):
+    """as do_run, on a scratch worktree with its own work / evidence directories (several at once, /repo untouched)"""
+    d = os.path.join(REF, rid)
+    meta = json.load(open(os.path.join(d, 'meta.json')))
+    base = '/tmp/refrun/' + rid
+    sh('git -C /repo worktree remove --force %s/repo' % base)
+    shutil.rmtree(base, ignore_errors=True)
+    os.makedirs(base)
+    wt = base + '/repo'
+    sh('git -C /repo worktree add --detach %s HEAD' % wt)
+    try:
+        rc, o = sh('git -C %s apply --3way %s' % (wt, os.path.join(d, 'patch.diff')))
+        if rc:
+            meta['checks'] = {'apply': 'does not apply to /repo HEAD: ' + o.strip()[:200]}
+            json.dump(meta, open(os.path.join(d, 'meta.json'), 'w'), indent=1)
+            print(rid, 'patch does not apply to HEAD')
+            return 2
+        env = dict(os.environ, VERIF_REPO=wt, VERIF_WORK=base + '/work', VERIF_EVID=base + '/evid')
+        if os.path.isdir(os.path.join(VERIF, 'work', 'tls')):
+            shutil.copytree(os.path.join(VERIF, 'work', 'tls'), base + '/work/tls')
+        meta['checks'] = {}
+        for p in CHECKS[rid.split('-')[0]]:
+            pr = subprocess.run('bin/check %s --tier quick' % p, shell=True, cwd=VERIF, env=env, stdout=subprocess.PIPE, stderr=subprocess.STDOUT,
+                                text=True, timeout=7200)
+            rc, out = pr.returncode, pr.stdout
+            lines = [l for l in out.split('\n') if l.startswith(('VIOLATION', 'MACHINERY', '  clause'))]
+            drift = {}
+            try:
+                cov = json.load(open(os.path.join(base, 'evid', p + '.json')))['coverage']
+                drift = dict(cov.get('drift_from_detailed_model') or {})
+                dmv = cov.get('design_model_validation') or {}
+                if dmv.get('drift'):
+                    drift['DRIFT_' + dmv['module'].split(' ')[0]] = sum(dmv['drift'].values())
+            except Exception:  # noqa
+                pass
+            meta['checks'][p] = {'rc': rc, 'verdict': {0: 'QUIET', 1: 'ALARM'}.get(rc, 'MACHINERY'), 'lines': lines[:4], 'drift': drift}
+            print('%s under %s: %s%s' % (rid, p, meta['checks'][p]['verdict'], (' drift %s' % drift) if drift else ''))
+            for l in lines[:4]:
+                print('    ' + l[:260])
+            sys.stdout.flush()
+    finally:
+        sh('git -C /repo worktree remove --force %s' % wt)
+        shutil.rmtree(base, ignore_errors=True)
+    json.dump(meta, open(os.path.join(d, 'meta.json'), 'w'), indent=1)
+    return 0
+
+
 def main():
+    if sys.argv[1] == 'prun':
+        from concurrent.futures import ThreadPoolExecutor
+        ids = sorted(os.listdir(REF)) if sys.argv[2] == 'all' else [a for a in sys.argv[2:] if not a.startswith('--')]
+        jobs = int(sys.argv[sys.argv.index('--jobs') + 1]) if '--jobs' in sys.argv else 3
+        ids = [i for i in ids if not i.isdigit()]
+        with ThreadPoolExecutor(jobs) as ex:
+            list(ex.map(do_prun_one, ids))
+        sh('git -C /repo worktree prune')
+        return 0
     if sys.argv[1] == 'import':
         for g in sys.argv[2:]:
             do_import(g)
